@@ -164,10 +164,10 @@ func (p consProg) text(id string) string {
 	case "generic":
 		G = "GenSrc(c, 810, 811, 812)"
 	case "method":
-		G = "Box{c, 3}.Items()"
+		G = "(Box{c, 3}).Items()"
 	case "iface":
-		w("var a any = Src(c, 3)")
-		G = "a.(Iter[int])"
+		w("var av any = Src(c, 3)")
+		G = "av.(Iter[int])"
 	case "param":
 		w("func(g Iter[int]) {")
 		ind++
